@@ -169,7 +169,7 @@ def _open(s):
         dds.set_store("local", internal_dir=os.path.join(s.root, "i"), data_dir=os.path.join(s.root, "d"))
     else:
         dds.set_store("dbfs", internal_dir="dbfs:/int", data_dir="dbfs:/data", dbutils=s.db)
-    st = api._store_var
+    st = api._store()
     api._store_var = None
     return st
 
